@@ -473,8 +473,9 @@ class VF:
     def bind_through_ref_default(self, pat, ref):
         if pat['k'] == 'Binding':
             place = self.var_place(pat['var'], pat['name'])
-            if pat['ty'].startswith('&'):
-                self.write(place, ref)
+            if pat['ty'].startswith('&') or pat.get('by_ref'):
+                # default binding mode through a reference: the binding is a reference to the field (an alias of the place)
+                self.write(place, Ref(ref.place, bool(pat.get('by_ref_mut', ref.mut))) if pat.get('by_ref') else ref)
             else:
                 self.write(place, self.read(ref.place))
         else:
